@@ -190,6 +190,11 @@ class _CmOps:
         targets = t if isinstance(t, tuple) and t[:1] != ("cls",) else (t,)
         if all(isinstance(x, tuple) and x[:1] == ("cls",) for x in targets):
             return any(issub(e[2], x[1]) for x in targets)
+        if any(x is None for x in targets):
+            # ``except None:`` — Python raises TypeError ("catching classes that do not inherit
+            # from BaseException is not allowed") as soon as an exception reaches the clause
+            env["@exc"] = ("exc", "typeerror-in-except-clause", "TypeError", None)
+            return False
         return UNKNOWN
 
 
